@@ -311,20 +311,26 @@ def canon(x, root):
 
 
 def add_local_findings(rep, check_dir):
-    """Open findings delivered with the check (checks/<ID>/findings.jsonl) count as known until the maintainer merges them."""
-    path = os.path.join(check_dir, "findings.jsonl")
-    merged = set()
-    kf = os.path.join(os.path.dirname(os.path.dirname(os.path.abspath(__file__))), "known_findings.jsonl")
-    if os.path.exists(kf):
-        for line in open(kf):
-            line = line.strip()
-            if line and not line.startswith("#"):
-                f = json.loads(line)
-                merged.add((f.get("property"), f.get("deviation")))          # the merged record (open or fixed) wins
-    if os.path.exists(path):
-        for line in open(path):
-            line = line.strip()
-            if line and not line.startswith("#"):
-                f = json.loads(line)
-                if f.get("property") == rep.prop and f.get("status") == "open" and (f["property"], f["deviation"]) not in merged:
-                    rep.open.setdefault(f["deviation"], f)
+    """Which findings of this property are open: the merged file (/verif/known_findings.jsonl, or the file named by
+    VERIF_FINDINGS for trial runs) wins, rows of checks/<ID>/findings.jsonl that it does not have yet are added.
+    Sets rep.open (deviation -> row) and returns the set of open deviation names: the checks switch the as-coded
+    reading of the specification on for exactly these."""
+    verif = os.path.dirname(os.path.dirname(os.path.abspath(__file__)))
+    rows, have = [], set()
+    for path in (os.environ.get("VERIF_FINDINGS") or os.path.join(verif, "known_findings.jsonl"), os.path.join(check_dir, "findings.jsonl")):
+        if os.path.exists(path):
+            for line in open(path):
+                line = line.strip()
+                if line and not line.startswith("#"):
+                    f = json.loads(line)
+                    if f.get("property") == rep.prop and (f["property"], f["deviation"]) not in have:
+                        rows.append(f)
+        have |= {(f["property"], f["deviation"]) for f in rows}
+    rep.open = {f["deviation"]: f for f in rows if f.get("status") == "open"}
+    rep.notes.append("open findings (as-coded reading on): %s; repaired (ideal reading demanded): %s" % (
+        sorted(rep.open), sorted(f["deviation"] for f in rows if f.get("status") != "open")))
+    return set(rep.open)
+
+
+def tla_set(names):
+    return "{" + ", ".join('"%s"' % n for n in sorted(names)) + "}"
